@@ -51,6 +51,10 @@ CHECKS["C16"] = dict(cat="model_checking", technique="explicit-state BFS over ge
              text="For six representative programs of each program family and each start configuration (interpreter interface, eager generation at link, lazy generation) all histories up to depth 5-6 over gen(f), level changes, output, interpretation, calls through the public address and linking of later modules that call or inline f are executed; "
                   "in every state MIR_output_item(f) must equal the text after a link without generation, f->addr must be unchanged, a repeated MIR_gen must return the same address and every execution must behave as refinterp says the program as written behaves.",
              note="histories that interpret a function before its first generation are outside the property and not explored (they crash the generator: noted in DESIGN.md); thorough tier repeats on the asan build except programs whose inlined callee uses alloca (ASan artefact of the interpreter's bstart/bend)", ref="§3 C16")
+CHECKS["C17"] = dict(cat="model_checking", technique="explicit-state BFS over legal API histories on a context with checking allocators (ledger, quarantine, write-protected code pages, --wrap of libc allocator calls)",
+             text="All legal histories up to depth 8 (thorough 10) over creating modules by API / scan / binary read / c2mir_compile, load, link with each interface, run, MIR_gen at changing levels, MIR_output and MIR_write are executed on a context created with a checking MIR_alloc and MIR_code_alloc and closed by gen_finish, c2mir_finish, MIR_finish; "
+                  "every realloc must quote the block's true size, no block may be freed twice, touched after free or left allocated, no code region may stay mapped, code pages are writable only inside a write window (a store outside faults), and a direct libc allocator call from library code is reported.",
+             note="canonical state = legality automaton state + number of live code regions; libc-internal allocations are not judged; thorough tier repeats the BFS on the asan build", ref="§3 C17")
 NOT_YET = {}
 def main():
     props = [json.loads(l) for l in open(os.path.join(VERIF, "properties.jsonl"))]
